@@ -161,18 +161,32 @@ Check C05_resolution_roundtrip :
     from_rel_link_url (ref_url (to_rel_link_url (join SEPS ks) (join SEPS ds)) ext) (join SEPS ds) = join SEPS ks.
 Print Assumptions C05_resolution_roundtrip.
 
-(* F9 (open finding): an inline link is keyed without the linking note's directory *)
-Theorem C05_inline_resolution_refuted :
-  (forall url title lt ils, ref_keys [Link url title lt ils] = [key_name url]) /\
-  exists dir url, ref_keys [Link url "" Regular [Str "x"]] = ["m"] /\
-                  from_rel_link_url url dir = "d/m" /\ dir = key_parent "d/n".
-Proof. exact (conj inline_key_no_directory inline_resolution_refuted). Qed.
+(* F9 / F-C05-inline-dir (repaired): an inline link is keyed like a block reference - the keys a line of a note
+   in directory [dir] is indexed under are the urls of its links resolved against [dir] (formerly refuted:
+   C05_inline_resolution_refuted, the url as typed) *)
+Theorem C05_inline_resolution :
+  forall dir l,
+    ref_keys (to_ginlines dir l) =
+    map (fun url => if is_ref_url url then from_rel_link_url url dir else url) (flat_map inline_link_urls l).
+Proof. exact inline_keys_resolved. Qed.
 
-Check C05_inline_resolution_refuted :
-  (forall url title lt ils, ref_keys [Link url title lt ils] = [key_name url]) /\
-  exists dir url, ref_keys [Link url "" Regular [Str "x"]] = ["m"] /\
-                  from_rel_link_url url dir = "d/m" /\ dir = key_parent "d/n".
-Print Assumptions C05_inline_resolution_refuted.
+Check C05_inline_resolution :
+  forall dir l,
+    ref_keys (to_ginlines dir l) =
+    map (fun url => if is_ref_url url then from_rel_link_url url dir else url) (flat_map inline_link_urls l).
+Print Assumptions C05_inline_resolution.
+
+Theorem C05_inline_resolution_repaired :
+  ref_keys (to_ginlines (key_parent "d/n") [Str "see "; Link "m" "" Regular [Str "x"]]) = ["d/m"] /\
+  ref_keys (to_ginlines (key_parent "n") [Str "see "; Link "m" "" Regular [Str "x"]]) = ["m"] /\
+  ref_keys (to_ginlines (key_parent "d/n") [Link "../m.md" "" Regular [Str "x"]; Emph [Link "./m" "" WikiLink []]]) = ["m"; "d/m"].
+Proof. exact inline_resolution_repaired. Qed.
+
+Check C05_inline_resolution_repaired :
+  ref_keys (to_ginlines (key_parent "d/n") [Str "see "; Link "m" "" Regular [Str "x"]]) = ["d/m"] /\
+  ref_keys (to_ginlines (key_parent "n") [Str "see "; Link "m" "" Regular [Str "x"]]) = ["m"] /\
+  ref_keys (to_ginlines (key_parent "d/n") [Link "../m.md" "" Regular [Str "x"]; Emph [Link "./m" "" WikiLink []]]) = ["m"; "d/m"].
+Print Assumptions C05_inline_resolution_repaired.
 
 (* the hypotheses are satisfiable by a non-trivial arena: a note with a heading, a list whose
    item holds a block reference, and a table followed by a paragraph with a link *)
